@@ -343,6 +343,10 @@ func (g *Gen) scenario(p *Profile) {
 	w := e.w
 	g.stop = false
 	for step := 0; step < p.Steps && !g.stop; step++ {
+		if w.Main == nil || w.Main.S == nil {
+			g.stop = true // a reopen inside an op failed: the node is gone
+			break
+		}
 		act := g.pick(p.W)
 		switch act {
 		case "xfer":
@@ -713,7 +717,9 @@ func (g *Gen) scenario(p *Profile) {
 		case "sync":
 			g.syncState()
 		case "reopen":
-			g.emit("reopen")
+			if g.emit("reopen") == "fail" {
+				g.stop = true // the node is gone
+			}
 		case "cmpcopy":
 			g.emit("cmpcopy")
 		case "replica":
